@@ -47,10 +47,12 @@ class Stop(Exception):
 class EncodeLog:
     def __init__(self):
         self.calls = []          # dataset objects in call order
+        self.flags = []          # (is_implicit_vr, is_little_endian, deflated) of every call
         self.unencodable = []    # Dataset objects the script declared unencodable
 
     def encode(self, ds, is_implicit_vr=True, is_little_endian=True, deflated=False):
         self.calls.append(ds)
+        self.flags.append((is_implicit_vr, is_little_endian, deflated))
         if not isinstance(ds, Dataset):
             return None
         for u in self.unencodable:
@@ -723,7 +725,7 @@ class Run:
 
 def run_kernel(kname, msg_id, cx_id, script, log, n_sub=None, outcomes=(), codes=(), peer_end_at=-1,
                peer_end_release=False, destination=("127.0.0.1", 11112), dest_established=True,
-               associate_raises=False, first_override=None, req_edit=None):
+               associate_raises=False, first_override=None, req_edit=None, ts=None):
     """Execute the REAL `<ServiceClass>.SCP(req, context)` of kernel `kname` against the stubs with
     the scripted handler; returns what was observed.  Must be called inside `with scp_env() as log`."""
     k = KERNELS[kname]
@@ -745,6 +747,8 @@ def run_kernel(kname, msg_id, cx_id, script, log, n_sub=None, outcomes=(), codes
     if req_edit is not None:
         req_edit(req)
     cx = k.context(cx_id)
+    if ts is not None:
+        cx.transfer_syntax = [ts]
     svc = k.cls(assoc)
     out = Run()
     out.escaped = None
